@@ -1917,6 +1917,10 @@ def py_builtin(interp: Any, name: str, args: list[V], kwargs: dict[str, V], st: 
             yield IntV(st.norm(r)), st
         else:
             yield unk("sum of unknown"), st
+    elif name in ("max", "min") and len(args) == 1 and type(a0).__name__ == "ScopeV":
+        # the largest / smallest variable id of a scope: unrelated to its size (a scope need not be
+        # 0..n-1), so it is its own symbol; ids start at 0
+        yield IntV(Dim.sym(f"nn:{name}var[{a0.length!r}]")), st  # type: ignore[attr-defined]
     elif name in ("max", "min"):
         items = seq_items(a0) if len(args) == 1 else list(args)
         if items is not None and items and all(isinstance(x, IntV) for x in items):
